@@ -42,6 +42,7 @@ func init() {
 			{ID: "C13.R21", Text: "fan-out/wait pairs are complete: in the parallel stream close and the open-all step every worker signals Done exactly once on every non-panicking path, Add is sized by the iterated collection and Wait precedes every return", Run: workersSignal("stream.stream).closeAllStreams", "stream.stream).openAllStreams")},
 			{ID: "C13.R22", Text: "rollback-mitigation polling is stopped: the stop handshake with the observe loop runs exactly when a loop exists (same rule as C07.R17)", Run: mitigationStopHandshake},
 			{ID: "C13.R23", Text: "the client's start and close paths call by call: the stream is opened, the listener subscribed (failure fatal), each optional component started and stopped under exactly its configuration switch (polarity included), Commit is Stream.Save, SetMetadata installs the supplied store, newDcp applies the defaults first and returns every error", Run: clientWiring},
+			{ID: "C13.R24", Text: "Close() returns from every lifecycle state, also when called from the listener: it only signals — no WaitGroup wait, receive, lock, sleep or blocking select in Close or what it calls", Run: closeOnlySignals},
 			{ID: "C13.R9", Text: "background waits are cancellable: the health checker blocks only in selects with a ctx.Done() case (same rule as C19.R2)", Run: c19r2},
 			{ID: "C13.R10", Text: "a cancel signal closes with closeWithCancel=true: the flag is raised in the branch of the wait that received the signal, before the close path runs, and is what Stream.Close receives", Run: c13r10},
 			{ID: "C13.R8", Text: "closeAllStreams closes every assigned vBucket: the serial branch iterates vbIDRange.Start..End inclusive, the parallel branch ranges over every tracked position", Run: closeAllRange},
